@@ -162,6 +162,13 @@ func MapOrderND(on bool) {}
 
 func RawEqual(a, b string) bool { return a == b }
 
+// Non-short-circuit boolean connectives (no forking under the symbolic executor).
+func And(a, b bool) bool     { return a && b }
+func Or(a, b bool) bool      { return a || b }
+func Not(a bool) bool        { return !a }
+func Implies(a, b bool) bool { return !a || b }
+func StrEq(a, b string) bool { return a == b }
+
 // Resp is one strictly parsed RESP value.
 type Resp struct {
 	OK    bool
